@@ -33,6 +33,8 @@ def cases(tier):
     # a distribution on the whole real line: its default event-space bijector is the identity -- still a transformation like any other
     # (new unconstrained variable with the density and the parameter flag, original without a distribution of its own)
     C.append(("Normal/default(Identity)", tfd.Normal, dict(loc=0.5, scale=2.0), ("default",), 1.3, ["var", "auto"]))
+    # the initial value given as a plain Python int (its image under the inverse bijector is not an integer)
+    C.append(("LogNormal/Exp, Python-int initial value", tfd.LogNormal, dict(loc=0.5, scale=1.0), ("instance", lambda: tfb.Exp()), 3, ["var", "auto-default"]))
     C.append(("HalfNormal/Exp", tfd.HalfNormal, dict(scale=1.5), ("instance", lambda: tfb.Exp()), 0.8, ["var"]))
     C.append(("Gamma vector (2,), per_obs=False / Exp", tfd.Gamma, dict(concentration=2.0, rate=0.5), ("instance", lambda: tfb.Exp()), (1.3, 0.6), ["var", "builder", "auto-default"]))
     if tier == "thorough":
